@@ -21,8 +21,8 @@ Reads
   crates/ripd/src/session.rs  run_openresponses_agent_loop — the tool budget's accounting: `tool_call_count` is declared
       once (`let mut tool_call_count: u64 = 0`), tested `>= DEFAULT_MAX_TOOL_CALLS` at the head of the `loop` and at the
       head of the `for call in tool_calls` body (each returning max_tool_calls_exceeded), and incremented
-        - exactly once, as the statement right after that test, BEFORE the `allows_function` refusal branch
-          (every drained call is paid for, refused or not)                                 -> AcctEveryCall
+        - exactly once, as an unconditional statement of the loop body after that test and BEFORE the `allows_function`
+          refusal branch (every drained call is paid for, refused or not)                  -> AcctEveryCall
         - only inside the dispatching branches of the `if !…allows_function(..) {refuse} else if … else …` chain,
           not in the refusing one                                                         -> AcctDispatchedOnly
       anything else (no increment, conditional increment elsewhere, a reset, `-=`) is "not found".  No `continue` in
@@ -272,7 +272,10 @@ def main():
                             need(chain_end is not None, "call loop: end of the dispatch chain not found")
                             in_refuse = [i for i in fincs if r0 <= i < r1]
                             in_chain = [i for i in fincs if chain_end is not None and r1 <= i < chain_end]
-                            if re.match(inc, rest) and len(incs) == 1 and len(fincs) == 1 and fincs[0] < mref.start():
+                            def depth_at(pos):
+                                return fb.count("{", 0, pos) - fb.count("}", 0, pos)
+                            # unconditional: a statement of the loop body itself (depth 0), after the bound test and before the refusal test
+                            if len(incs) == 1 and len(fincs) == 1 and m0.end() <= fincs[0] < mref.start() and depth_at(fincs[0]) == 0:
                                 acct = "AcctEveryCall"
                             elif len(incs) == len(fincs) == len(in_chain) >= 1 and not in_refuse and not re.match(inc, rest):
                                 acct = "AcctDispatchedOnly"
